@@ -1,5 +1,9 @@
 -------------------------- MODULE Trace_Reconnect --------------------------
 (* Trace validation (code -> spec) for Reconnect.tla.  A trace is the life of  *)
+(* one real POLICY object: event 1 carries the parameters it was created       *)
+(* with; "Sched" = new_schedule() was called (schedules are numbered in that    *)
+(* order); "Emit"/"Stop" name the schedule whose next() was called             *)
+(* (original text follows)                                                      *)
 (* one real schedule object: event 1 carries the parameters it was created     *)
 (* with (in the spec's units, see Reconnect.tla), then one "Emit" event per     *)
 (* item returned by next() with the enclosure of the delay, and a final "Stop"  *)
@@ -23,8 +27,9 @@ TraceNext ==
     /\ l' = l + 1
     /\ UNCHANGED tid
     /\ LET e == Tr[l] IN
-          \/ e.e = "Emit" /\ Emit(e.dlo, e.dhi)
-          \/ e.e = "Stop" /\ Stop
+          \/ e.e = "Sched" /\ e.s = ns + 1 /\ Sched
+          \/ e.e = "Emit" /\ Emit(e.s, e.dlo, e.dhi)
+          \/ e.e = "Stop" /\ Stop(e.s)
 
 TraceSpec == TraceInit /\ [][TraceNext]_tvars
 
